@@ -780,14 +780,16 @@ Examples:
     collapse = {}
     #XXX: any vectorized way to do this?
     for i,j in pairs: #XXX: sorted(sorted(pair) for pair in pairs): # ordering?
-        found = False
-        for k,v in collapse.items():
-            if i in (k,) or i in v:
-                v.add(j); found = True; break
-            if j in (k,) or j in v:
-                v.add(i); found = True; break
+        found = [k for k,v in collapse.items() if i in (k,) or i in v or j in (k,) or j in v]
         if not found:
             collapse[i] = set((j,))
+            continue
+        k = found[0]
+        v = collapse[k]
+        v.add(i); v.add(j)
+        for l in found[1:]: # the pair joins groups that were separate
+            v.add(l); v.update(collapse.pop(l))
+        v.discard(k)
     return collapse
 
 
